@@ -63,6 +63,14 @@ case "${1:-}" in
     ;;
   replay)
     build
+    prop=$(grep -o '"property": *"C[0-9][0-9]"' "$2" | head -1 | grep -o 'C[0-9][0-9]')
+    case "$prop" in C06|C07|C15) build_cli ;; esac
+    case "$prop" in
+      C06|C19)
+        build_instr
+        [ "$prop" = C19 ] && { go build -race -o .work/vrace ./cmd/vrace 2> .work/build-race.log || exit 2; }
+        exec ./.work/vcheck-instr -replay "$2" ;;
+    esac
     exec ./.work/vcheck -replay "$2"
     ;;
   C[0-9][0-9])
